@@ -288,7 +288,8 @@ def nuts(n_iter,
             stepsize = np.exp(log_stepsize)
 
         elif ii == n_adapt + 1:  # adaptation/warmup finished
-            stepsize = np.exp(log_avg_stepsize)  # final stepsize
+            if n_adapt > 0:
+                stepsize = np.exp(log_avg_stepsize)  # final stepsize
             n_diverged = 0
             n_outside = 0
             n_total = 0
